@@ -6,6 +6,32 @@ from ..core import Ob
 BIG = [0xFFFFFFFF, 0x40000000]
 
 
+def tzm_loops(ctx):
+    """loop ids of tzm_find by what the source line says (robust against edits of lib/tzmap.c)"""
+    import re
+    from ..core import sh
+    ob = Ob('probe', 'C19_tzm.c', 'h_tzm_find', {'SHAPE': '{1}', 'MAXW': 1, 'QLEN': 1, 'ZSZ': 8})
+    gb = ctx.compile_gb(ob)
+    out = sh(['goto-instrument', '--show-loops', gb], timeout=300).stdout
+    want = {'rewind': 'tp[-1]', 'cmp': '*mp == *tp', 'outer': 'while (sp < ep)', 'skip': 'for (; *tp; tp++)'}
+    got = {}
+    for m in re.finditer(r'Loop (tzm_find\.\d+):\n\s+file (\S+) line (\d+)', out):
+        try:
+            lines = open(m.group(2)).read().splitlines()
+        except OSError:
+            continue
+        n = int(m.group(3))
+        text = ' '.join(lines[max(0, n - 3):n + 2])
+        for k, pat in want.items():
+            if pat in lines[n - 1] or (k not in got and pat in text):
+                got.setdefault(k, m.group(1))
+                break
+    if not all(k in got for k in ('rewind', 'cmp', 'outer')):
+        raise core.Broken('cannot map the loops of tzm_find: %r' % got)
+    ctx.tzm_loops = got
+    return {'tzm_find_loops': got}
+
+
 def make_obs(ctx):
     obs = []
     sizes = (0, 4, 20, 21, 43, 44, 45, 50, 53, 59, 64, 88, 98) if ctx.tier == 'quick' else list(range(0, 129))
@@ -42,12 +68,25 @@ def make_obs(ctx):
                     add(sz, 'v2:%x.%x.%x:ntr%x.nty%x' % (n1, y1, chr1, ntr, nty), d,
                         'TZif v2 magic, first block counts (%d,%d,charcnt %#x), second header timecnt=%#x typecnt=%#x' % (
                             n1, y1, chr1, ntr, nty))
+    # zone maps: tzm_open + tzm_find on well-formed compiled maps with symbolic keys
+    shapes = [(1,), (1, 1), (1, 1, 1), (2, 1), (1, 2)] if ctx.tier == 'quick' else \
+             [(1,), (2,), (1, 1), (1, 2), (2, 1), (1, 1, 1), (1, 2, 1), (2, 1, 1), (1, 1, 2), (1, 1, 1, 1), (1, 1, 1, 1, 1)]
+    for sh in shapes:
+        for ql in ((1, 3, 4, 5) if ctx.tier == 'quick' else (1, 2, 3, 4, 5, 7, 8)):
+            obs.append(Ob('tzm-find:%s:q%d' % ('-'.join(map(str, sh)), ql), 'C19_tzm.c', 'h_tzm_find',
+                          {'SHAPE': '{%s}' % ','.join(map(str, sh)), 'MAXW': sum(sh), 'QLEN': ql, 'ZSZ': 8}, unwind=4 * sum(sh) + 4 * len(sh) + 30,
+                          unwindset=['%s:%d' % (ctx.tzm_loops['rewind'], 4 * max(sh) + 6), '%s:%d' % (ctx.tzm_loops['cmp'], ql + 3),
+                                     '%s:%d' % (ctx.tzm_loops['outer'], len(sh) + 2)] +
+                                    (['%s:%d' % (ctx.tzm_loops['skip'], 4 * max(sh) + 3)] if 'skip' in ctx.tzm_loops else []),
+                          mem=True, replay='asan', group='tzm-find', timeout=900,
+                          bounds={'map': '%d records with keys of %s words (bytes symbolic, sorted), zone offsets symbolic' % (len(sh), '/'.join(map(str, sh))),
+                                  'lookup': 'any key of %d bytes in an object of exactly %d bytes' % (ql, ql + 1)}))
     return [o for o in obs if o is not None]
 
 
 def run(tier, seed):
     return core.run_property(
-        'C19', tier, seed, make_obs,
+        'C19', tier, seed, make_obs, pre=tzm_loops,
         level_note=('bounded model checking of the loaders on arbitrary file images of each exact size '
                     '(heap object of exactly that size, so any access outside the image is a bounds violation)'),
         assumptions=['allocation never fails', 'images up to 96 bytes'],
